@@ -9,7 +9,7 @@ TECHNIQUE = "deviation-bounded exhaustive enumeration of constructor argument tu
 RULE = ("42 command classes x every opcode-table entry under which a command set offers the command x all argument tuples that "
         "deviate from the baseline (required arguments 0, optional arguments omitted) in at most k dimensions (k=2 quick, 3 thorough); "
         "a dimension is one multi-bit argument ranging over its whole alphabet (all values up to 4 bits, else 0/1/max/max-1/every "
-        "2^i/every max-2^i/A5../5A..) or the full product of all 1-bit arguments (each omitted/0/1); tuples with at most one deviation are also passed positionally (signature order) and as int-subclass instances (bool for 0/1) and must give the same CDB; READ CD / READ / WRITE (10,12) also with the negative lead-in LBAs -1, -150, -45150, -2^31 (two's complement or refusal); the first command of every (class, table) partition is shown with print_cdb() / print() / repr() before the rest is built. Non-trivial = at least one "
+        "2^i/every max-2^i/A5../5A..) or the full product of all 1-bit arguments (each omitted/0/1); tuples with at most one deviation are also passed positionally (in the order of the released signature, frozen in vf/spec/signatures.py) and as int-subclass instances (bool for 0/1) and must give the same CDB; READ CD / READ / WRITE (10,12) also with the negative lead-in LBAs -1, -150, -45150, -2^31 (two's complement or refusal); the first command of every (class, table) partition is shown with print_cdb() / print() / repr() before the rest is built. Non-trivial = at least one "
         "deviation; distinct = distinct (class, table, tuple).")
 ASSUMPTIONS = [
     "oracle: vf/spec/cdb.py (Appendix A of DESIGN.md), whole-CDB comparison with the spec encoder: length, opcode, service action, every field, every other bit zero",
@@ -154,22 +154,29 @@ def conventions(name, st, key, point):
     except Exception:   # noqa: BLE001 - judged by run_case
         return []
     out = []
-    params = [p for p in list(inspect.signature(cls.__init__).parameters.values())[2:] if p.kind == p.POSITIONAL_OR_KEYWORD]
-    names = [p.name for p in params]
+    # positional order: the RELEASED one (vf/spec/signatures.py, frozen at the pinned commit), not what the library says today
+    from vf.spec import signatures as SIG
+    import ast
+    params = SIG.COMMANDS[name]
+    names = [n for n, _ in params]
     variants = [("int-subclass values", [], {k: _wrap(v) for k, v in kw.items()})]
     if kw and all(k in names for k in kw):
         last = max(names.index(k) for k in kw)
         args = []
-        for p in params[:last + 1]:
-            if p.name in kw:
-                args.append(kw[p.name])
-            elif p.default is not p.empty:
-                args.append(p.default)
+        for n, d in params[:last + 1]:
+            if n in kw:
+                args.append(kw[n])
+            elif d is not None:
+                try:
+                    args.append(ast.literal_eval(d))
+                except Exception:   # noqa: BLE001
+                    args = None
+                    break
             else:
                 args = None
                 break
         if args is not None:
-            variants.append(("positional arguments", args, {}))
+            variants.append(("positional arguments in the released order %r" % (names[:last + 1],), args, {}))
     # the command's own build_cdb() given the decoded fields of its CDB plus a keyword that is no field, in front (ignored as documented)
     try:
         inst = cls(op, **kw)
